@@ -17,7 +17,7 @@ import sys
 import warnings
 
 sys.path.insert(0, os.path.dirname(os.path.abspath(__file__)))
-from _common import Suite, Verdict  # noqa: E402
+from _common import Suite, Verdict, CacheChangesResult  # noqa: E402
 
 import numpy as np  # noqa: E402
 
@@ -65,6 +65,8 @@ def _solve(q0, z, prof, domain, levels, **kw):
         _, conc, flx = steady_state_transport_solver(
             q0, np.ascontiguousarray(z, dtype=float), prof, domain, lv,
             precision="double", **kw)
+    except CacheChangesResult:
+        raise
     except Exception as e:
         raise SolverCrash("%s: %s" % (type(e).__name__, e))
     finally:
